@@ -161,6 +161,18 @@ func (c *conn) readloop() {
 	}
 }
 
+// sendMsg writes a message to the stream. The encoder panics on a value it cannot serialize
+// (a negative interval, a type without tag, ...): report that as an error, a panic in the
+// write loop goroutine would end the whole process.
+func (c *conn) sendMsg(msg any) (err error) {
+	defer func() {
+		if p := recover(); p != nil {
+			err = fmt.Errorf("message cannot be encoded: %v", p)
+		}
+	}()
+	return c.stream.Send(msg)
+}
+
 // writeloop continuously reads messages from the transmission channel (tx) and sends them over the stream.
 // It handles errors during sending, propagates them back to the requester, and terminates the connection if necessary.
 // The loop exits if the connection is closed, the context is done, or the transmission channel is closed.
@@ -173,7 +185,7 @@ func (c *conn) writeloop() {
 			if !ok {
 				return
 			}
-			if err := c.stream.Send(req.msg); err != nil {
+			if err := c.sendMsg(req.msg); err != nil {
 				// println("write fail:", err.Error())
 				if errors.Is(err, net.ErrClosed) {
 					err = io.ErrClosedPipe
